@@ -16,6 +16,16 @@ Proof.
   rewrite <- (combine_nth a b n da db Hl). apply nth_In. rewrite combine_length. lia.
 Qed.
 
+Lemma poly_vars_le_sound n p : poly_vars_le n p = true -> forall t, In t p -> (length (snd t) <= n)%nat.
+Proof. unfold poly_vars_le. intros H t Ht. rewrite forallb_forall in H. apply Nat.leb_le. now apply H. Qed.
+
+Lemma vars_ok_sound e : vars_ok e = true ->
+  forall b, In b (e_basis e) -> forall p, In p (bfun_polys b) -> forall t, In t p -> (length (snd t) <= e_dim e)%nat.
+Proof.
+  unfold vars_ok. intros H b Hb p Hp. rewrite forallb_forall in H. specialize (H b Hb).
+  rewrite forallb_forall in H. apply poly_vars_le_sound. now apply H.
+Qed.
+
 Section Sound.
   Variable R : Type.
   Variables (rO rI : R) (radd rmul rsub : R -> R -> R) (ropp : R -> R) (req : R -> R -> Prop).
